@@ -215,12 +215,17 @@ def semantic_equal(old, roots, oid, fld, hyp=True):
 
 
 def effect_obligations(interp, fq, contract):
+    """effect typing (property C16 for the handler modules): the effects of this path lie within the declared set; one
+    obligation per path, plus one (failing) obligation per offending effect"""
     if contract.effects is None:
         return
-    for kind, detail, line in interp.ctx.effects:
-        if kind not in contract.effects:
-            interp.ctx.oblige(f"{fq}::effect::{kind}:{detail}@{line}", False, kind="effect", line=line,
-                              props=contract.props, info=f"effect {kind} ({detail}) not allowed")
+    props = tuple(contract.props) + (("C16",) if contract.fq.startswith("cfdppy.handler.") and "C16" not in contract.props else ())
+    bad = [(k, d, l) for k, d, l in interp.ctx.effects if k not in contract.effects]
+    interp.ctx.oblige(f"{fq}::effect::effects_within_{'_'.join(sorted(contract.effects)) or 'none'}", len(bad) == 0, kind="effect",
+                      props=props, info=f"effects on this path: {sorted({k for k, _, _ in interp.ctx.effects})}")
+    for kind, detail, line in bad:
+        interp.ctx.oblige(f"{fq}::effect::{kind}:{detail}@{line}", False, kind="effect", line=line,
+                          props=props, info=f"effect {kind} ({detail}) not allowed")
 
 
 def emits_obligations(interp, fq, contract, o, n, result, events):
